@@ -463,7 +463,12 @@ package table
 // clone's bookkeeping slices is not expressible across calls with the present contract language - DESIGN.md 8)
 //@ func UpdatePathAttrs
 //@   requires info != nil && original != nil && global != nil && original.GetSource() != nil
-//@   claims at-return
+//@   claims at-return at-call
+// from C09: "to eBGP peers the local AS prepended exactly once (... private-AS options applied)": the private-AS
+// option works on the path as received - it is applied before, never after, the local AS is prepended - and the
+// eBGP prepend is that of the session's local AS, once
+//@   at-call path.RemovePrivateAS( requires !called(PrependAsn)
+//@   at-call path.PrependAsn(info.LocalAS requires arg1 == info.LocalAS && arg2 == 1
 //@   at-return requires old(info.RouteServerClient) ==> ret0 == original
 //@   at-return requires !old(info.RouteServerClient) ==> ret0 != nil && fresh(ret0)
 
